@@ -160,7 +160,12 @@ func (s *tsSched) step(t int) bool {
 	case tsParked:
 		s.trace = append(s.trace, fmt.Sprintf("%d:%s", t, th.point))
 		th.state = tsBlocked
-		s.resume[t] <- struct{}{}
+		select {
+		case s.resume[t] <- struct{}{}:
+		case <-time.After(10 * time.Second):
+			s.err = fmt.Sprintf("thread %s was taken to be parked at %s but does not accept its release", th.name, th.point)
+			return false
+		}
 	default:
 		return true
 	}
